@@ -25,6 +25,9 @@ Two parts, both driving the REAL ``param.reactive`` of /repo:
     (right / left / reflected operand, index, slice bound, positional / keyword argument of
     methods, pipe, map, bind, the .rx helpers), followed through updates of ``z`` and ``x``.
 
+(e) operands nested one to four containers deep inside operation arguments, and (f) unread windows
+    in which an input returns to the value the last read saw: see ``bounded/c09_nest.py``.
+
 Oracle leniency (never a false alarm):
   * part (c): when deriving an expression raises and plain Python would raise for one of the
     derived nodes on the current inputs as well, the history ends there (tolerated).
@@ -1874,14 +1877,33 @@ def run(tier, seed):
               "left / reflected operand of every binary and comparison operator, unary, index, slice bounds, "
               "positional and keyword argument of methods, pipe, map, bind, operand and subject of the .rx "
               "helpers, two references), read / update z / read / update x / read / update z / read, with "
-              "and without a read of the reference before it is used") % len(FIXED),
+              "and without a read of the reference before it is used. "
+              "(e) [c09_nest] an operand (rx root, Parameter, bound function, depends method, rx expression, rx "
+              "expression that itself holds a nested operand) 1-4 containers deep (17 shapes of list / tuple / dict "
+              "value / dict key / slice, mixed) inside an argument of 67 operation contexts (pipe / map positional "
+              "and keyword argument, in_ / and_ / or_, index / index tuple / slice bound, method and __call__ "
+              "arguments, both operands of every binary and comparison operator), optionally read through a "
+              "downstream consumer holding the expression in a list; every history of <= L ops {update an input, "
+              "read} ending in a read, with / without .rx.watch; distinct = (expression, watch, history). "
+              "(f) [c09_nest] %d expressions over int / bool / str / list rx roots, Parameter roots and bound "
+              "functions whose inputs cycle v0 -> v1 -> v0 -> v2 (the list comes back as the same object / an equal "
+              "copy): every history of <= L ops {update an input, read, read a sibling consumer of the same root} "
+              "ending in a read -- unread windows in which an input returns to the value the last read saw, alone "
+              "or with another root changing in the same window --, with / without .rx.watch"
+              ) % (len(FIXED), len(__import__("bounded.c09_nest", fromlist=["x"]).BACK_EXPRS)),
         bound=("lattice %d values; depth-1: all programs, L=%d; depth 2-3: %d fixed + %d random "
                "programs (seed %d), L=%d; input value cycles of 5 values incl. 0 / short lists; part (c): %s "
-               "staged histories per (program, m); part (d): %d attribute kinds x %d positions x 2"
+               "staged histories per (program, m); part (d): %d attribute kinds x %d positions x 2; part (e): %s, "
+               "L=%d; part (f): L=%d, %s"
                % (len(lat), L1, len(FIXED), n_random, seed, L2,
                   "all, every m" if thorough else
                   "the canonical ones + a seeded sample, <= 4 (one node, m=0) / <= 12 (more nodes, m>=1)",
-                  len(ACC_SOURCES) if thorough else len(ACC_QUICK), len(_acc_contexts()))))
+                  len(ACC_SOURCES) if thorough else len(ACC_QUICK), len(_acc_contexts()),
+                  "shapes x 7 leaf kinds x 30 non-operator contexts, every operator context with 2 leaf kinds, direct / through a consumer alternating, return windows + 12 sampled histories" if thorough else
+                  "every (shape, context) pair with a rotating leaf kind (6 sampled operator contexts per shape)",
+                  4 if thorough else 3, 6 if thorough else 5,
+                  "all histories" if thorough else
+                  "all return windows without sibling read + a seeded sample of 20 others per expression")))
     B.exhaustive = False
 
     tasks_a = ([("bin", n, tier) for n, _, _ in BINOPS] + [("cmp", n, tier) for n, _, _, _ in CMPOPS]
@@ -1906,9 +1928,12 @@ def run(tier, seed):
 
     cap1, cap2 = (10 ** 9, 10 ** 9) if thorough else (4, 12)
     tasks_c = [(p, tier, seed, cap1) for p in d1] + [(p, tier, seed, cap2) for p in deep]
+    from bounded import c09_nest        # parts (e) nested operands, (f) unread windows (helper module)
+    tasks_n = c09_nest.tasks(tier, seed)
     ctx = mp.get_context("fork")
     with ProcessPoolExecutor(max_workers=NPROC, mp_context=ctx) as ex:
         fut_b = {i: ex.submit(_dag_task, tasks_b[i]) for i in order}      # big tasks first
+        fut_n = [ex.submit(c09_nest.task, t) for t in tasks_n]
         fut_a = [ex.submit(_optable_task, t) for t in tasks_a]
         fut_d = ex.submit(_acc_task, (tier,))
         fut_c = [ex.submit(_staged_task, t) for t in sorted(tasks_c, key=lambda t: -len(t[0]))]
@@ -1916,6 +1941,7 @@ def run(tier, seed):
         res_b = [fut_b[i].result() for i in range(len(tasks_b))]
         res_c = [f.result() for f in fut_c]
         res_d = fut_d.result()
+        res_n = [f.result() for f in fut_n]
 
     # ---- (a) merge ------------------------------------------------------------------------
     import param.reactive as R
@@ -2044,6 +2070,9 @@ def run(tier, seed):
                         detail, len(allf), "; ".join("%s/%s" % (g[4], g[0]) for g in allf[:6])),
                     replay=(acc_replay(f, clause, witness) if steps not in ("harness",) else None))
         B._seen[(clause, witness)]["count"] = len(allf)
+
+    # ---- (e) + (f) merge: nested operands, unread windows (bounded/c09_nest.py) ------------
+    c09_nest.merge(B, res_n, tier)
 
     B.sample({"part": "a", "tasks": len(tasks_a), "cases": a_cases,
               "not_dispatched_to_rx": sum(r["trivial"] for r in res_a)})
